@@ -569,6 +569,15 @@ void h_noop(void) { Noop(); VF_CANARY("end"); }
     return out
 
 
+def replay(ctx, res, failed, rec):
+    from vf.replay import run_driver
+    fn = res.job.meta.get('fn')
+    if fn == 'Empty':
+        return run_driver(ctx, 'ready_witness.cpp')
+    return None, ('the counterexample is an interleaving of the %s with environment steps allowed by the rely (see counterexample / '
+                  'verifier_output); no scripted-schedule driver exists for this obligation' % fn)
+
+
 def jobs(ctx):
     out = []
     if ctx.prop in ('C01', 'C04', 'C11', 'C16', 'C03', 'C13'):
